@@ -129,10 +129,13 @@ def http_readback(colldir):
         if r.status != 207:
             return ["http-listing-fails:%s" % r.status]
         ms = dav.parse_multistatus(r.body)
+        import urllib.parse
+
         for x in ms.responses:
-            if not x.href or x.href.rstrip("/") == base.rstrip("/"):
+            tgt = dav.resolve_href(base, x.href or "")  # (hrefs may be absolute URLs or carry more percent-encoding than needed)
+            if not x.href or urllib.parse.unquote(tgt).rstrip("/") == base.rstrip("/"):
                 continue
-            g = w.request("GET", x.href)
+            g = w.request("GET", tgt)
             if g.status != 200:
                 out.append("http-listed-member-not-served:%s" % g.status)
                 continue
